@@ -377,8 +377,18 @@ fn emit(out: &mut impl Write, id: &str, c: &Case, malformed: bool, r: std::resul
         fmt_ints(&o.bounds)).unwrap();
 }
 
+thread_local! {
+    /// one pool per size, built on first use (building a pool per case dominates the run time)
+    static POOLS: std::cell::RefCell<std::collections::HashMap<usize, std::sync::Arc<rayon::ThreadPool>>> =
+        std::cell::RefCell::new(std::collections::HashMap::new());
+}
+
 fn exec(c: &Case, dir: &std::path::Path) -> std::result::Result<Result<Outcome>, String> {
-    let pool = rayon::ThreadPoolBuilder::new().num_threads(c.threads).build().unwrap();
+    let pool = POOLS.with(|p| {
+        p.borrow_mut().entry(c.threads).or_insert_with(|| {
+            std::sync::Arc::new(rayon::ThreadPoolBuilder::new().num_threads(c.threads).build().unwrap())
+        }).clone()
+    });
     catch(AssertUnwindSafe(|| pool.install(|| run_case(c, dir))))
 }
 
